@@ -151,7 +151,7 @@ CHECKS["C11"] = dict(
     level_text="Persistent-mode programs with Subscribe calls overlapping Publish calls (forced by parking one side at the hook points between persisting, sending, replaying and registering) are run; at quiescence every subscription must hold exactly one acked delivery of every successfully published message of its topic.",
     level_note=_GC_NOTE,
     steps=[dict(name="replay", run="^TestReplayExactlyOnce$", quick=500, thorough=160000, shards_thorough=12),
-           dict(name="longhistory", run="^TestLongHistoryOverlap$", quick=120, thorough=4000, shards_thorough=4)],
+           dict(name="longhistory", run="^TestLongHistoryOverlap$", quick=120, thorough=4000, shards_thorough=16)],
 )
 
 CHECKS["C07"] = dict(
@@ -177,7 +177,7 @@ CHECKS["C10"] = dict(
     technique="stateful model-based testing (rapid state machine) of the Router lifecycle API over scripted subscribers, plus a forced schedule parking RunHandlers right after Started() closes; race detector",
     level_text="rapid drives random lifecycle programs (AddHandler before/after Run, Run, RunHandlers repeated and concurrent, Stop, context cancel, Close, probes) against a real Router and checks a model after every step: subscriptions per handler, Running() vs subscriptions, probe handling, Stop/Stopped usability, Run's return, second Run. The Started()->Stop() window is forced by parking the starter at a hook point.",
     level_note="Trusted: the lifecycle model in c10_test.go, scripted subscribers. Shutting down while a handler added after Run was never started is outside the property (documented need to call RunHandlers).",
-    steps=[dict(name="machine", run="^TestLifecycleMachine$", quick=300, thorough=480000, shards_thorough=12),
+    steps=[dict(name="machine", run="^TestLifecycleMachine$", quick=300, thorough=480000, shards_thorough=24),
            dict(name="forced-stop", run="^(TestStopRightAfterStarted|TestStopWithMessageInFlight|TestCloseDuringStartup|TestStartupInterference)$", quick=100, thorough=20000, shards_thorough=4)],
 )
 
